@@ -215,21 +215,32 @@ A check that is right was never loosened; these were errors of the machinery and
   patches were `err format` in the code and `ok` in the model. The code is right (a refusal never violates C08,
   and every well-formed patch is still accepted - oracle `well-formed-patch-rejected-or-wrong`); the model
   was brought back in line (`rleDecompress`, `applyBsd0`) and `rle_length` / `applyBsd0_size` re-proved.
+* C01 / C02 (model-written archives read back by the library): after name pairs differing only in the case of a
+  non-ASCII letter were added to the shared archive generator, the harness' own read-back spelled names with
+  `str::to_uppercase` (all of Unicode) and so asked the library for the *other* file of the pair: 15 disagreements on the
+  unchanged tree. The code is right (the format folds ASCII letters only); the harness now folds ASCII only
+  (`to_ascii_uppercase` in `spellings`, the read-back and `fsop readall`). Found the same hour, before any registered check ran
+  on it. The library's one real use of Unicode folding (the patch chain's key) is defect D69.
+* C02 (direction 2): every failure of an encrypted reference-written file was attributed to one of the two recorded
+  findings by the file's flags alone. The tags are now applied only where the finding explains the failure (a stored
+  unit whose length is not a multiple of 4 for D11b; a failure that appears only behind a prefix is never attributed) -
+  this is what let the seeded change C02-m9 hide.
 
 ## 9. Seeded changes (fresh sub-agents, own worktrees) and which check catches them
 
 Each change was produced by a sub-agent that saw only the property text, compiles, passes the crate's test
 suite, and was confirmed here in a scratch worktree (`tools/confirm_seed*.sh`: tests pass with the change, the
 demonstration fails with it and passes without). `tools/seedtest.sh <patch> Cxx` applies it to /repo, runs the
-check, and reverts. Four rounds were run (m1/m2; then m3/m4, m5/m6 and m7/m8 by agents that were also told what had
-already been found, so that they would look elsewhere): 160 changes;
+check, and reverts. Five rounds were run (m1/m2; then m3/m4, m5/m6 and m7/m8 by agents that were also given one-line
+descriptions of the changes earlier agents had delivered, so that they would look elsewhere; the fifth round, m9/m10, by
+agents that were given the property text and a worktree and nothing else): 200 changes;
 `tools/seedregress.sh` re-runs recorded seeds against the current checks (`seeded/<id>/check.json`; a full run
 takes about five hours, so the later rounds carry the verdict of the run that closed them): all are caught except
 C12-m2, which no longer breaks the property since a later repair of /repo and is rightly not reported. The first
-version of the checks missed 6 of the first 40, 19 of the second 40, 14 of the third 40 and 21 of the fourth 40
-(later agents dig where earlier ones had not); every miss led to a stronger generator or oracle (marked
+version of the checks missed 6 of the first 40, 19 of the second 40, 14 of the third 40, 21 of the fourth 40 and 6 of
+the fifth 40 (later agents dig where earlier ones had not); every miss led to a stronger generator or oracle (marked
 *strengthened* / "closed by"), never to a special case for the seed, and several of those strengthenings - and
-the agents' side remarks - exposed genuine defects of the unchanged code (D50..D55, D58..D64, D67). Seeds reported
+the agents' side remarks - exposed genuine defects of the unchanged code (D50..D55, D58..D64, D67, D69, D70). Seeds reported
 *without a failing input* (the model or a proof obligation stops matching, no oracle fires) are marked so: for
 those the replay names the correspondence that no longer checks.
 '''
@@ -255,6 +266,10 @@ def section9():
                "C15-m6, C19-m6, C20-m5, C20-m6 (what closed each is in its row).\n")
     out.append("\n*Round 4, missed at first:* C01-m7, C01-m8, C02-m7, C02-m8, C03-m8, C04-m8, C05-m8, C08-m7, C08-m8, C09-m8, C10-m7, "
                "C12-m7, C13-m7, C14-m7, C15-m7, C15-m8, C17-m7, C17-m8, C19-m7, C19-m8, C20-m8 (what closed each is in its row).\n")
+    out.append("\n*Round 5 (property text only), missed at first:* C02-m9 (position-adjusted key of an archive behind a prefix), "
+               "C05-m10 (two related locator fields hostile at once), C07-m9 (names differing in non-ASCII case), C09-m9 (members the "
+               "listfile does not name), C18-m9 (file-id tables of more than eight sections); one seed check (C01-m9) reported a false "
+               "alarm of the machinery itself, see section 8 (what closed each is in its row).\n")
     out.append("\n*Strengthened after a miss:* C01-m1 (store-raw boundary units added to the generator), C07-m1 (sources with "
                "external / partial listfiles), C08-m2 (digest-field cases), C12-m2 (dirty compaction variant), C20-m2 (BLP "
                "sub-commands), C11 (separate edge archive). C19-m2 is a lock-order inversion whose demonstration is "
@@ -272,7 +287,15 @@ TAIL = r'''
   the restructured one 10 s).
 * Rust is tied to the models by differential execution, not by a translator: no Rust-to-Lean translator for
   this code base could be written in the time available (binrw derive macros, trait-generic readers, I/O
-  everywhere), so the regeneration route is used only for constants and the lock graph.
+  everywhere), so the regeneration route is used only for constants, the lock graph and the shape of the C API's close
+  protocol (order of SFileCloseArchive's sections, the search's second look-up, the open's lock scope).
+* A theorem whose statement mentions a definition with large numeric literals applied to a variable (the BLP magic as
+  `0x30504C42 + v * 0x1000000`) made the kernel run for minutes and stop with "deep recursion"; stating the lemma for an
+  arbitrary number with the needed facts as hypotheses and instantiating it afterwards avoids that.
+* Fixed-layout headers are instances of one generic record codec (`Lib.Record`: a layout is a list of field widths; write→read,
+  read→write and injectivity proved once for every layout): the MPQ header V1–V4 and the BLP header use it. The other fixed
+  records (MPHD / MAIN / MODF, MOHD, MHDR / MCIN / MCNK header, M2 header) are still compared as bytes or field by field by the
+  harness rather than through a Lean layout.
 * Not covered / partial, by property (details in §6): C03 the third-party compressors and the in-tree Huffman codec
   (framing, selector and limit logic and the in-tree sparse and ADPCM codecs are modelled and proved); C05 totality is established by running the parsers (sampling), the theorems
   cover the front loops and the allocation rule; C09 the rayon runtime; C10 collision resistance of MD5,
@@ -280,7 +303,7 @@ TAIL = r'''
   trace, not power loss; C13 lights, emitters, colour / texture animations and bone rotations are not generated; the legacy .anim container cannot be read back (D65);
   C14/C15/C13 whole-file content preservation is an oracle (needs the real parsers), the theorems cover
   the derived data (offset tables, string tables, relocation); C15 group content cannot be parsed back by the
-  crate; C16 lossy pixel content; C19 scheduling (lock graph + stress with watchdog instead); C20 conversion sub-commands other than `blp convert` and `mpq create/extract` are not driven.
+  crate; C16 lossy pixel content; C19 scheduling in general (lock graph + stress with watchdog; the close-versus-open protocol is modelled over ALL schedules: close_leaves_nothing); C20 conversion sub-commands other than `blp convert` and `mpq create/extract` are not driven.
 * Hooks: none were needed (`MANIFEST.hooks.source_commits` is empty); every entry point used is public.
 '''
 
